@@ -117,7 +117,7 @@ def or_on_path(sid):
     result = []
     for sid in found:
         if not sid in result:
-            result.append(sid.replace(_start + sip, ""))
+            result.append(sid[len(_start + sip):])
 
     # no type check needed
     return result
